@@ -95,6 +95,10 @@ package tools
 //@   requires s != nil && wfSpec(s)
 //@   ensures[C20] count: err == nil && a != nil && a.NodeCount == len(s.Nodes)
 //@   ensures[C20] termsound: forall i int :: 0 <= i && i < len(a.TerminalNodes) ==> (a.TerminalNodes[i] in s.Nodes) && (s.Nodes[a.TerminalNodes[i]].Branches == nil || len(s.Nodes[a.TerminalNodes[i]].Branches.Branches) == 0)
+// ... and every terminal node is listed (tpos(k): the position at which node k was appended).
+//@   loop 0 keyfn tpos = len(terminal)
+//@   loop 0 invariant[C20] termcomplete: forall k string :: seen(0)[k] && (s.Nodes[k].Branches == nil || len(s.Nodes[k].Branches.Branches) == 0) ==> 0 <= tpos(k) && tpos(k) < len(terminal) && terminal[tpos(k)] == k
+//@   ensures[C20] termcomplete: err == nil ==> forall k string :: (k in s.Nodes) && (s.Nodes[k].Branches == nil || len(s.Nodes[k].Branches.Branches) == 0) ==> 0 <= tpos(k) && tpos(k) < len(a.TerminalNodes) && a.TerminalNodes[tpos(k)] == k
 //@   loop 0 invariant a.NodeCount == len(s.Nodes)
 //@   loop 0 invariant[C20] termsound: forall i int :: 0 <= i && i < len(terminal) ==> (terminal[i] in s.Nodes) && (s.Nodes[terminal[i]].Branches == nil || len(s.Nodes[terminal[i]].Branches.Branches) == 0)
 //@   loop 0 invariant[C20] missingsound: forall k string :: (k in missingTargets) ==> !(k in s.Nodes)
